@@ -100,7 +100,8 @@ SelfObs ==
       yr     |-> SetToSeq(Summary(E, ToSet(fr), 0)),
       bal    |-> SetToSeq({<<a, L.bal[a].acq, L.bal[a].sent, L.bal[a].recv, L.bal[a].fin>> : a \in DOMAIN L.bal}),
       ppu    |-> <<lotsCost, lotsAmt>>,
-      lab    |-> [q \in 1..Len(fr) |-> Labels(fr, 1..Len(fr), q)]]
+      lab    |-> [q \in 1..Len(fr) |-> Labels(fr, 1..Len(fr), q)],
+      sold   |-> SetToSeq({<<i, E[i].amt - ls.rem[i]>> : i \in {j \in A : E[j].cls = "in"}})]
 
 Finish ==
   /\ phase = "serve" /\ Unserved = {} /\ (ls.pend = 0 \/ ls.left = 0)
